@@ -172,6 +172,22 @@ def compile_props(pid):
     return rc, out, theorems, printed, closed, sorted(set(axioms))
 
 
+def pin_diff(name):
+    """functions of a pinned source file whose digest differs from coq/ties/WireSrcPins.v"""
+    try:
+        def rows(path, ident):
+            m = re.search(r"Definition %s : list \(string \* string\) :=\n(.*?)\]\.\n" % ident, open(path).read(), re.S)
+            return dict(re.findall(r'\("([^"]+)"(?:%string)?, "([0-9a-f]+)"', m.group(1))) if m else {}
+        now = rows(os.path.join(COQ, "gen", "Facts.v"), "f_src_" + name)
+        pin = rows(os.path.join(COQ, "ties", "WireSrcPins.v"), "pin_src_" + name)
+        out = ["%s (rewritten)" % k for k in now if k in pin and pin[k] != now[k]]
+        out += ["%s (new)" % k for k in now if k not in pin]
+        out += ["%s (removed)" % k for k in pin if k not in now]
+        return out
+    except Exception as e:
+        return ["<could not compare: %s>" % e]
+
+
 def tie_lemmas(pid):
     p = os.path.join(COQ, "ties", "Tie%s.v" % pid)
     if not os.path.exists(p):
@@ -324,7 +340,11 @@ def run_check(pid, tier, seed):
         if rc != 0:
             # which file failed and why
             for m in re.finditer(r'File "\./([^"]+)", line (\d+).*?\n(Error:.*?)(?=\nmake|\nCOQC|\Z)', out, flags=re.S):
-                proof_breaks.append({"what": "coqc %s line %s" % (m.group(1), m.group(2)), "error": m.group(3)[:1500]})
+                brk = {"what": "coqc %s line %s" % (m.group(1), m.group(2)), "error": m.group(3)[:1500]}
+                pm = re.search(r"pin_src_(\w+)", m.group(3))
+                if pm:
+                    brk["functions_rewritten_since_the_model_was_read"] = pin_diff(pm.group(1))
+                proof_breaks.append(brk)
             if not any(b["what"].startswith("coqc") for b in proof_breaks):
                 proof_breaks.append({"what": "make " + " ".join(targets), "error": out[-2000:]})
         # stale .vo of a failed target must not be trusted
